@@ -4,6 +4,7 @@ import WebpVerif.Gen.Libwebp
 import WebpVerif.Lemmas.Vp8Ctx
 import WebpVerif.Lemmas.Vp8Mode
 import WebpVerif.Lemmas.Vp8Border
+import WebpVerif.Lemmas.Vp8Pred
 
 /-!
 # C02 — VP8 key-frame reconstruction is bit-exact
@@ -311,5 +312,57 @@ theorem luma_borders_are_rfc (f : Vp8Border.Frame) : ∀ b ∈ Vp8Border.run f, 
 def exBorders : Vp8Border.Frame := ⟨2, 2, fun mbx mby x y => 10 * mbx + 100 * mby + x + y⟩
 example : ((Vp8Border.run exBorders).map fun b => (b.corner, b.above 0, b.aboveRight 3, b.left 15)) =
     [(127, 127, 127, 129), (127, 127, 127, 30), (129, 15, 28, 129), (30, 25, 40, 130)] := by decide
+
+
+/-! ### intra prediction
+
+`Vp8Pred.predict` is the model of the fourteen predictor functions of vp8.rs on the prediction
+workspace (tied to the real functions on random workspaces, offsets and strides through hook
+5cd911b, byte for byte over the whole workspace).  The reference is libwebp's C implementation of
+the RFC 6386 section 12 predictors (`Vp8PredSpec`, transcribed from `src/dsp/dec.c`). -/
+
+/-- **The ten sub-block predictors** (B_DC, B_VE, B_HE, B_LD, B_RD, B_VR, B_VL, B_HD, B_HU by the
+    hook's numbering 0, 2..9): at every block position of every workspace, every pixel of the 4x4
+    block receives exactly the reference predictor's value for the thirteen neighbouring pixels
+    found in the workspace -/
+theorem subblock_predictors_are_reference (kind : Nat) (hk : kind = 0 ∨ (2 ≤ kind ∧ kind ≤ 9)) (a : Array Nat)
+    (size x0 y0 stride : Nat) (ab lf : Bool) (hs : x0 + 4 ≤ stride) (hsz : (y0 + 4) * stride ≤ a.size)
+    (r c : Nat) (hr : r < 4) (hc : c < 4) :
+    (Vp8Pred.predict kind a size x0 y0 stride ab lf)[(y0 + r) * stride + x0 + c]! =
+      Vp8PredProof.ref4 kind (Vp8PredProof.refN (Vp8Pred.nbOf a x0 y0 stride)) c r :=
+  Vp8PredProof.predict_subblock kind hk a size x0 y0 stride ab lf hs hsz r c hr hc
+
+/-- **TrueMotion** for every block size (4x4 sub-blocks, 8x8 chroma, 16x16 luma), position and
+    workspace: `clip(top[x] + left[y] − topleft)` -/
+theorem truemotion_is_reference (a : Array Nat) (size x0 y0 stride : Nat) (ab lf : Bool) (hx : 1 ≤ x0) (hy : 1 ≤ y0)
+    (hs : x0 + size ≤ stride) (hsz : (y0 + size) * stride ≤ a.size) (r c : Nat) (hr : r < size) (hc : c < size) :
+    (Vp8Pred.predict 1 a size x0 y0 stride ab lf)[(y0 + r) * stride + x0 + c]! =
+      Vp8PredSpec.TM a[(y0 - 1) * stride + x0 - 1]! (fun x => a[(y0 - 1) * stride + x0 + x]!)
+        (fun y => a[(y0 + y) * stride + x0 - 1]!) c r :=
+  Vp8PredProof.predict_tm 1 rfl a size x0 y0 stride ab lf hx hy hs hsz r c hr hc
+
+/-- **vertical and horizontal prediction** of a `size × size` block as the decoder calls them
+    (block at row 1, column 1 of its workspace): the pixel above resp. to the left -/
+theorem vertical_horizontal_are_reference (a : Array Nat) (size stride : Nat) (ab lf : Bool)
+    (hs : 1 + size ≤ stride) (hsz : (1 + size) * stride ≤ a.size) (r c : Nat) (hr : r < size) (hc : c < size) :
+    (Vp8Pred.predict 10 a size 1 1 stride ab lf)[(1 + r) * stride + 1 + c]! = a[1 + c]! ∧
+    (Vp8Pred.predict 11 a size 1 1 stride ab lf)[(1 + r) * stride + 1 + c]! = a[(1 + r) * stride]! :=
+  ⟨Vp8PredProof.predict_v 10 rfl a size stride ab lf hs hsz r c hr hc,
+   Vp8PredProof.predict_h 11 rfl a size stride ab lf hs hsz r c hr hc⟩
+
+/-- **DC prediction** of the 16x16 luma and 8x8 chroma blocks for each of the four availability
+    cases (frame corner, top row, left column, interior): the block is filled with the reference's
+    `DC16*` / `DC8uv*` value -/
+theorem dc_is_reference (a : Array Nat) (hbytes : ∀ i : Nat, a[i]! < 256) (size : Nat) (h816 : size = 8 ∨ size = 16)
+    (x0 y0 stride : Nat) (ab lf : Bool) (hs : 1 + size ≤ stride) (hsz : (1 + size) * stride ≤ a.size)
+    (r c : Nat) (hr : r < size) (hc : c < size) :
+    (Vp8Pred.predict 12 a size x0 y0 stride ab lf)[(1 + r) * stride + 1 + c]! =
+      Vp8PredSpec.DC size (fun x => a[1 + x]!) (fun y => a[(y + 1) * stride]!) ab lf := by
+  rw [Vp8PredProof.predict_dc 12 (by decide) a size x0 y0 stride ab lf hs hsz r c hr hc]
+  exact Vp8PredProof.dcVal_ref a hbytes size h816 stride ab lf
+
+-- non-vacuity: the luma workspace (21 x 17) meets the hypotheses at sub-block (3, 3)
+example : (13 : Nat) + 4 ≤ 21 ∧ (13 + 4) * 21 ≤ (Array.replicate (21 * 17) 0).size := by
+  rw [Array.size_replicate]; decide
 
 end C02
